@@ -18,30 +18,46 @@ func init() {
 	})
 }
 
-// deliveryModel classifies leaf deliveries on the service's dispatch path.
+// deliveryModel: a *delivery call* is a call that hands the current request to exactly one place - an invoke of a
+// dispatcher's VarlinkDispatch, or a static call of a repo function that reaches the reply write helper. The rule
+// "exactly one delivery" is evaluated per function, level by level: in the dispatch entry, in the built-in dispatcher
+// and in every typed helper they call, every path makes exactly one delivery call; the generic reply primitives (the
+// functions with an interface{}-typed parameter, where refusals live) and the write helper itself are where it stops.
 type deliveryModel struct {
-	p        *Prog
-	ro       *Roles
-	wfn      map[*ssa.Function]bool
-	replyFns map[*ssa.Function]bool // functions (other than the dispatch entry points) that reach a write helper
+	p         *Prog
+	ro        *Roles
+	wfn       map[*ssa.Function]bool
+	replyFns  map[*ssa.Function]bool // repo functions that reach a write helper
+	primitive map[*ssa.Function]bool
 }
 
 func newDeliveryModel(p *Prog, ro *Roles, entries ...*ssa.Function) *deliveryModel {
-	dm := &deliveryModel{p: p, ro: ro, wfn: fnSet(ro.WFuncs), replyFns: map[*ssa.Function]bool{}}
-	ent := fnSet(entries)
+	dm := &deliveryModel{p: p, ro: ro, wfn: fnSet(ro.WFuncs), replyFns: map[*ssa.Function]bool{}, primitive: map[*ssa.Function]bool{}}
 	for _, f := range p.FuncsOf(pkgVarlink) {
-		if ent[f] || dm.wfn[f] {
-			continue
-		}
 		for g := range ro.CG.Reach([]*ssa.Function{f}, false) {
 			if dm.wfn[g] {
 				dm.replyFns[f] = true
 			}
 		}
 	}
+	for f := range dm.replyFns {
+		if dm.wfn[f] {
+			dm.primitive[f] = true
+			continue
+		}
+		for _, prm := range f.Params {
+			if it, ok := prm.Type().Underlying().(*types.Interface); ok && it.NumMethods() == 0 {
+				dm.primitive[f] = true
+			}
+		}
+	}
+	for _, e := range entries {
+		delete(dm.primitive, e)
+	}
 	return dm
 }
 
+// isLeaf: in is a delivery call.
 func (dm *deliveryModel) isLeaf(in ssa.Instruction) bool {
 	c, ok := in.(*ssa.Call)
 	if !ok {
@@ -50,32 +66,38 @@ func (dm *deliveryModel) isLeaf(in ssa.Instruction) bool {
 	if c.Call.IsInvoke() {
 		return c.Call.Method.Name() == "VarlinkDispatch"
 	}
-	if t := staticTarget(&c.Call); t != nil && dm.wfn[t] {
-		return true
-	}
-	switch calleeName(&c.Call) {
-	case "fmt.Errorf", "errors.New":
-		f := c.Parent()
-		for f.Parent() != nil {
-			f = f.Parent()
-		}
-		// an explicit refusal inside a reply function (not inside a built-in handler that goes on to reply)
-		if dm.replyFns[f] && isNamedRecvOrParam(f, "Call") && !dm.callsReplyFn(f) {
-			return true
-		}
-	}
-	return false
+	t := staticTarget(&c.Call)
+	return t != nil && dm.replyFns[t]
 }
 
-// callsReplyFn: f itself calls another reply function that is not the write helper (i.e. it is a built-in handler
-// or a convenience wrapper, not one of the primitive reply functions).
-func (dm *deliveryModel) callsReplyFn(f *ssa.Function) bool {
-	for _, cs := range callsIn(f, false) {
-		if t := staticTarget(cs.Common); t != nil && dm.replyFns[t] {
-			return true
+// counter: path counter over delivery calls that does not descend into them.
+func (dm *deliveryModel) counter() *PathCounter {
+	pc := NewPathCounter(dm.p, dm.isLeaf)
+	pc.NoDescend = true
+	return pc
+}
+
+// closure: the non-primitive functions reached through delivery calls from the given roots.
+func (dm *deliveryModel) closure(roots ...*ssa.Function) []*ssa.Function {
+	seen := map[*ssa.Function]bool{}
+	var out []*ssa.Function
+	var walk func(f *ssa.Function)
+	walk = func(f *ssa.Function) {
+		if f == nil || seen[f] || dm.primitive[f] || f.Blocks == nil {
+			return
+		}
+		seen[f] = true
+		out = append(out, f)
+		for _, cs := range callsIn(f, false) {
+			if c, ok := cs.Instr.(*ssa.Call); ok && dm.isLeaf(c) {
+				walk(staticTarget(&c.Call))
+			}
 		}
 	}
-	return false
+	for _, r := range roots {
+		walk(r)
+	}
+	return out
 }
 
 func isNamedRecvOrParam(f *ssa.Function, name string) bool {
@@ -142,7 +164,7 @@ func runC04(r *Run, p *Prog) {
 		}
 	}
 	dm := newDeliveryModel(p, ro, hm, builtin)
-	pc := NewPathCounter(p, dm.isLeaf)
+	pc := dm.counter()
 
 	r.Guard("T1", func() {
 		// every slice of the method string uses the last-dot index
@@ -222,6 +244,15 @@ func runC04(r *Run, p *Prog) {
 						fmt.Sprintf("on the decode-error edge: deliveries between %d and %d, decode error returned=%v", lo, hi, okRet))
 				}
 			}
+		}
+		// level by level: every typed helper on the way delivers exactly once on every path
+		for _, f := range dm.closure(hm) {
+			if f == hm {
+				continue
+			}
+			lo, hi := pc.Summary(f)
+			r.Ob("T4", shortName(f), "exactly one delivery on every path of this handler/helper", f.Pos(), lo == 1 && hi == 1,
+				fmt.Sprintf("between %d and %d delivery calls on the paths of %s", lo, hi, shortName(f)))
 		}
 		// the dispatcher invocation
 		n := 0
@@ -330,7 +361,7 @@ func runC04(r *Run, p *Prog) {
 						continue
 					}
 					t := staticTarget(&c.Call)
-					isDelivery := c.Call.IsInvoke() && c.Call.Method.Name() == "VarlinkDispatch" || t != nil && (dm.wfn[t] || dm.replyFns[t] || t == builtin)
+					isDelivery := c.Call.IsInvoke() && c.Call.Method.Name() == "VarlinkDispatch" || t != nil && (dm.replyFns[t] || t == builtin)
 					if !isDelivery {
 						continue
 					}
